@@ -213,10 +213,12 @@ func (idx *IVFIndex) Train(vectors []VectorNode) error {
 			idx.nlist, idx.nlist, len(vectors))
 	}
 
-	// Extract raw float32 slices for k-means
-	rawVectors := make([][]float32, len(vectors))
-	for i, v := range vectors {
-		rawVectors[i] = v.Vector()
+	// k-means runs on the vectors as they will be stored (Add preprocesses
+	// every vector: for cosine it stores the unit vector), so that centroids
+	// and indexed vectors live in the same space
+	rawVectors, err := preprocessedTrainingSample(vectors, idx.distance)
+	if err != nil {
+		return err
 	}
 
 	// Run k-means clustering to learn centroids
@@ -226,6 +228,7 @@ func (idx *IVFIndex) Train(vectors []VectorNode) error {
 	if centroids == nil {
 		return fmt.Errorf("k-means clustering failed")
 	}
+	normalizeCentroids(centroids, idx.distance)
 
 	// Store the learned centroids
 	idx.centroids = centroids
